@@ -686,6 +686,16 @@ class Rope:
         """rope[n:] / rope[:n] / rope[i] with a concrete bound inside the leading fixed-length part
         (a frame = packed header + payload of symbolic length)."""
         head = self.parts[0]
+        from .interp import SymSlice
+        if (isinstance(idx, (slice, SymSlice)) and isinstance(head, BytesVal) and len(self.parts) == 2
+                and isinstance(self.parts[1], ABytes)):
+            # a slice that starts at or after the fixed-length head lies in the symbolic-length tail
+            n = len(head.items)
+            lo = idx.start if isinstance(idx, slice) else idx.lo
+            hi = idx.stop if isinstance(idx, slice) else idx.hi
+            st = idx.step if isinstance(idx, slice) else idx.st
+            if st is None and lo is not None and ((isinstance(lo, int) and lo >= n) or (is_sym(lo) and not it.path.branch(lo < n))):
+                return abytes_getitem(it, self.parts[1], SymSlice(lo - n, None if hi is None else hi - n, None))
         if isinstance(head, BytesVal):
             n = len(head.items)
             if isinstance(idx, slice) and idx.step is None:
